@@ -142,6 +142,8 @@ class FnTranslator:
             if isinstance(e.value, ast.Name) and e.value.id in self.env:
                 base, t = self.env[e.value.id]
                 if isinstance(t, Rec):
+                    if e.attr in getattr(self.unit, 'attr_consts', {}):
+                        return ('true' if self.unit.attr_consts[e.attr] else 'false'), BOOL
                     if e.attr not in t.fields:
                         raise Untranslatable(f'attribute {e.attr} of {e.value.id}')
                     return f'{e.value.id}_{e.attr}', t.fields[e.attr]
@@ -593,7 +595,7 @@ class FnTranslator:
             return 'out__'
         if self.out_rec is not None:
             name, rec = self.out_rec
-            vals = [f'{name}_{k}' for k in rec.fields]
+            vals = [f'{name}_{k}' for k in rec.fields] + [p for p, t in self.unit.params if is_file(t)]
             return vals[0] if len(vals) == 1 else '(' + ', '.join(vals) + ')'
         files = [p for p, t in self.unit.params if is_file(t)]
         if e is None:
@@ -1107,7 +1109,7 @@ class FnTranslator:
         if u.cls is not None:
             rty = u.self_type if u.ret in (None, NONE) else f'({lty(u.ret)} × {u.self_type})'
         elif self.out_rec is not None:
-            ts = [lty(t) for t in self.out_rec[1].fields.values()]
+            ts = [lty(t) for t in self.out_rec[1].fields.values()] + [lty(t) for _, t in u.params if is_file(t)]
             rty = ts[0] if len(ts) == 1 else '(' + ' × '.join(ts) + ')'
         else:
             rty = lty(u.ret) if u.ret not in (None,) else 'Unit'
@@ -1295,6 +1297,10 @@ def units():
     mfrec = lambda: Rec({'type': INT, 'tracks': LIST(LIST(MSG)), 'ticks_per_beat': INT})   # noqa: E731
     u = Unit(MF, '_save', [('self', mfrec()), ('outfile', FILE)], NONE, lean_name='MidiFile._save')
     u.pycls, u.keep_self = 'MidiFile', True
+    U.append(u)
+    u = Unit(MF, '_load', [('self', Rec({'type': INT, 'ticks_per_beat': INT, 'tracks': LIST(LIST(EXTMSG)), 'clip': BOOL}, out=True)),
+                           ('infile', INFILE)], None, lean_name='MidiFile._load')
+    u.pycls, u.keep_self, u.ext, u.attr_consts = 'MidiFile', True, True, {'debug': False}
     U.append(u)
     u = Unit(MF, 'save', [('self', mfrec()), ('file', FILE)], NONE, lean_name='MidiFile.save')
     u.pycls, u.keep_self = 'MidiFile', True
